@@ -66,6 +66,30 @@ class Verdicts:
 # abstract execution hooks shared by R4/R5
 # ---------------------------------------------------------------------------
 
+class _Env(Env):
+    """Env that also models the clamping of a prefix slice: `len(x[:k]) == min(k, len(x))` for k >= 0
+    (the plain evaluator only reads `x[:k]` when `k <= len(x)` is among the path facts), so that a chunk that is
+    truncated to the budget BEFORE its length is taken is read as clamped."""
+
+    def fork(self):
+        e = Env.fork(self)
+        e.__class__ = _Env
+        return e
+
+    def _subscript(self, e):
+        s = e.slice
+        if not (isinstance(s, ast.Slice) and s.lower is None and s.step is None and s.upper is not None):
+            return Env._subscript(self, e)
+        n = self.length(self.eval(e.value), short(e.value, 40))
+        hi = self.eval(s.upper)
+        if not isinstance(hi, Lin):
+            return Seq(Lin.atom(fresh('len(%s)' % short(e, 40), tainted=True)))
+        if not self.prove_le(0, hi):
+            self.notes.append('len(%s): side condition 0 <= %r not among the path facts' % (short(e, 60), hi))
+            return Seq(Lin.atom(fresh('len(%s)' % short(e, 40), tainted=True)))
+        return Seq(self.minmax('min', [hi, n]))
+
+
 def _const_key(e):
     return e.value if isinstance(e, ast.Constant) and isinstance(e.value, str) else None
 
@@ -77,6 +101,7 @@ def _on_call(env, call):
         ev = fresh('event')
         env.ghost['event'] = ev
         env.kind[('sub', ev, 'body')] = 'seq'
+        env.kind[('len', ('sub', ev, 'body'))] = 'nat'      # (so that `if num_bytes:` reads as `num_bytes != 0`)
         return Lin.atom(ev)
     if isinstance(f, ast.Attribute) and f.attr == 'append' and isinstance(f.value, ast.Name) and len(call.args) == 1:
         env.log.append(('hand', env.eval(call.args[0]), call))
@@ -154,6 +179,7 @@ def asgi_loops(run, v: Verdicts, f, mode):
     cfg = cfg_of(f, p)
     run.use_cfg(cfg)
     heads = loop_heads(cfg)
+    inl = Inliner(p, p.cls(ASGI), lambda h: not any(isinstance(c, ast.Call) and dotted(c.func) == RECEIVE for c in walk_self(h.node)))
     for lp in _receive_loops(f):
         hs = [i for i in cfg.nodes_for(lp) if cfg.node(i).kind == 'test' and cfg.node(i).ast is lp.test]
         if len(hs) != 1:
@@ -174,14 +200,21 @@ def asgi_loops(run, v: Verdicts, f, mode):
                 continue
             if end in heads and end != head:
                 raise UnknownIdiom('%s: nested loop inside the receive loop' % f.qual)
-            env = Env(_on_call)
+            if _spurious_lookup_error(cfg, steps):
+                continue
+            env = _Env(_on_call_inl)
             rem0 = env.declare(BUDGET, 'nat')
             pos0 = env.declare(POS, 'nat')
-            for e in run_steps(env, cfg, steps, _tracker(counter)):
+            for e in run_steps_inl(env, cfg, steps, inl, on_node=_tracker(counter)):
                 n_paths += 1
                 ev = e.ghost.get('event')
                 if ev is None:
                     raise UnknownIdiom('%s: a loop-body path without `await %s()`' % (f.qual, RECEIVE))
+                calls = [short(n, 40) for k, _v, n in e.log if k == 'selfcall']
+                if calls:
+                    # (loop-free helpers of the class are looked through; this one could not be)
+                    v.unknown('%s: the receive loop hands its accounting to `%s`, which cannot be looked through' % (f.qual, calls[0]))
+                    continue
                 rem_end = e.eval(_BUDGET_E)
                 if not isinstance(rem_end, Lin):
                     raise UnknownIdiom('%s: budget is not a number at the end of a loop-body path' % f.qual)
@@ -195,38 +228,140 @@ def asgi_loops(run, v: Verdicts, f, mode):
                     continue
                 lc = Lin.atom(('len', ('sub', ev, 'body')))
                 body_read = e.ghost.get('body_read', False)
-                expected = e.minmax('min', [lc, rem0]) if body_read else Lin.const(0)
-                got, last = _handed(e)
-                if hands_on:
-                    ok = e.prove_eq(got, expected)
-                    if not ok and (got.tainted() or expected.tainted()):
-                        v.unknown('%s: %s' % (f.qual, '; '.join(e.notes[:2])))
-                    else:
-                        v.note(f, 'handed-on', 'bytes handed on per event have length min(len(body), budget)', ok,
-                               last if last is not None else recv,
-                               'bytes handed on have length %r, expected %r' % (got, expected), wit,
-                               'an event whose body is longer than the remaining Content-Length budget')
-                exact = e.prove_eq(rem_end, rem0 - expected) or e.prove_eq(rem_end, 0)
-                if not exact and e.prove_le(rem_end, rem0 - expected):
-                    # over-deduction is harmless iff a negative budget ends the loop and is normalised to 0 afterwards
-                    neg = Env()
-                    neg.add_le(neg.var(BUDGET), -1)
-                    exact = not neg.assume(lp.test, True) and _normalised_after(cfg, head)
-                v.note(f, 'budget', 'the budget decreases by exactly the bytes taken, or is zeroed', exact,
-                       e.ghost.get('last_budget', recv), 'budget after the event is %r, expected %r or 0' % (rem_end, rem0 - expected), wit,
-                       'a second read after this one is allowed to take more (or fewer) bytes than Content-Length leaves')
-                if counter:
-                    delta = e.eval(ast.Name(counter, ast.Load())) - e.var(counter)
-                    v.note(f, 'available-counter', '`%s` grows by exactly the bytes handed on' % counter, e.prove_eq(delta, got),
-                           e.ghost.get('last_counter', last if last is not None else recv),
-                           '`%s` grows by %r while %r bytes were buffered' % (counter, delta, got), wit,
-                           'Content-Length 10, one 20-byte event, read(3): the loop does not see the buffered bytes / returns more than size')
-                if not hands_on:
-                    dpos = e.eval(_POS_E) - pos0
-                    v.note(f, 'position', 'the position advances by the bytes discarded', e.prove_eq(dpos, expected) or e.prove_eq(dpos, lc if body_read else 0),
-                           e.ghost.get('last_pos', recv), 'position advances by %r for a %r-byte event' % (dpos, lc), wit)
+                got0, last = _handed(e)
+                pos_end = e.eval(_POS_E)
+                if not isinstance(pos_end, Lin):
+                    raise UnknownIdiom('%s: the position is not a number at the end of a loop-body path' % f.qual)
+                delta0 = (e.eval(ast.Name(counter, ast.Load())) - e.var(counter)) if counter else None
+                pcons = e.ghost.get('last_pos', recv)
+                rw_pos = ('Content-Length 5, a 2-byte first event with more_body=True, then a 10-byte event: after %s() tell() is past '
+                          'Content-Length although only 5 bytes of body exist for the application' % f.name)
+                # the event either fits the budget or it does not: under each of the two facts every min()/max() over the
+                # event length and the budget is a plain linear form
+                for c in _fit_cases(e, lc, rem0):
+                    rem_c, got, dpos = _resolve(c, rem_end), _resolve(c, got0), _resolve(c, pos_end - pos0)
+                    expected = c.minmax('min', [lc, rem0]) if body_read else Lin.const(0)
+                    if hands_on:
+                        ok = c.prove_eq(got, expected)
+                        if not ok and (got.tainted() or expected.tainted()):
+                            v.unknown('%s: %s' % (f.qual, '; '.join(e.notes[:2])))
+                        else:
+                            v.note(f, 'handed-on', 'bytes handed on per event have length min(len(body), budget)', ok,
+                                   last if last is not None else recv,
+                                   'bytes handed on have length %r, expected %r' % (got, expected), wit,
+                                   'an event whose body is longer than the remaining Content-Length budget')
+                    exact = c.prove_eq(rem_c, rem0 - expected) or c.prove_eq(rem_c, 0)
+                    if not exact and c.prove_le(rem_c, rem0 - expected):
+                        # over-deduction is harmless iff a negative budget ends the loop and is normalised to 0 afterwards
+                        neg = Env()
+                        neg.add_le(neg.var(BUDGET), -1)
+                        exact = not neg.assume(lp.test, True) and _normalised_after(cfg, head)
+                    v.note(f, 'budget', 'the budget decreases by exactly the bytes taken, or is zeroed', exact,
+                           e.ghost.get('last_budget', recv), 'budget after the event is %r, expected %r or 0' % (rem_c, rem0 - expected), wit,
+                           'a second read after this one is allowed to take more (or fewer) bytes than Content-Length leaves')
+                    if counter:
+                        delta = _resolve(c, delta0)
+                        v.note(f, 'available-counter', '`%s` grows by exactly the bytes handed on' % counter, c.prove_eq(delta, got),
+                               e.ghost.get('last_counter', last if last is not None else recv),
+                               '`%s` grows by %r while %r bytes were buffered' % (counter, delta, got), wit,
+                               'Content-Length 10, one 20-byte event, read(3): the loop does not see the buffered bytes / returns more than size')
+                    if not hands_on:
+                        # what is discarded of an event is what read()/readall()/iteration would have handed on: min(len(body), budget).
+                        # (the normalisation of the BUDGET after the loop says nothing about the position: it is never normalised)
+                        ok = c.prove_eq(dpos, expected)
+                        if not ok and (dpos - expected).tainted():
+                            v.unknown('%s: %s' % (f.qual, '; '.join(e.notes[:2]) or 'position advance %r not understood' % (dpos,)))
+                        else:
+                            v.note(f, 'position', 'the position advances by exactly the bytes of the event that the budget admits, min(len(body), budget)', ok,
+                                   pcons, 'position advances by %r for a %r-byte event with a budget of %r (expected %r)' % (dpos, lc, rem0, expected), wit,
+                                   rw_pos)
+                    _within_budget(v, f, c, ev, dpos, rem0, rem_c, pcons, wit, rw_pos)
         if n_paths == 0:
             raise UnknownIdiom('%s: no feasible path through the receive loop' % f.qual)
+
+
+_LOOKUP_ERRORS = {'KeyError', 'IndexError', 'LookupError'}
+_TOTAL_BUILTINS = {'len', 'min', 'max', 'bool'}
+
+
+def _spurious_lookup_error(cfg, steps) -> bool:
+    """Does the path leave a statement that cannot raise a lookup error (no subscript, no await, no call but len/min/max/bool)
+    through an exceptional edge into a handler that catches nothing but lookup errors?  (`try: chunk = event['body'][:n];
+    num = len(chunk)  except KeyError: num = 0` -- the CFG has an edge from the second statement to the handler.)"""
+    for (a, l), (b, _l2) in zip(steps, steps[1:]):
+        if l != 'exc':
+            continue
+        n, h = cfg.node(a), cfg.node(b)
+        if n.kind != 'stmt' or h.kind != 'handler' or isinstance(n.ast, ast.Raise) or not isinstance(h.ast, ast.ExceptHandler) or h.ast.type is None:
+            continue
+        types = h.ast.type.elts if isinstance(h.ast.type, ast.Tuple) else [h.ast.type]
+        if not all(dotted(t) in _LOOKUP_ERRORS for t in types):
+            continue
+        if not any(isinstance(x, (ast.Subscript, ast.Await, ast.Yield, ast.YieldFrom)) or
+                   (isinstance(x, ast.Call) and not (isinstance(x.func, ast.Name) and x.func.id in _TOTAL_BUILTINS)) for x in n.walk()):
+            return True
+    return False
+
+
+def _fit_cases(e, lc, rem0):
+    """The path state split on whether the event fits the budget (infeasible halves dropped)."""
+    out = []
+    a = e.fork()
+    if a.add_le(lc, rem0):
+        out.append(a)
+    b = e.fork()
+    if b.add_le(rem0 + Lin.const(1), lc):
+        out.append(b)
+    return out
+
+
+def _resolve(env, l, depth=3):
+    """`l` with every min()/max() atom that the facts of `env` decide replaced by the argument it equals."""
+    if not isinstance(l, Lin) or depth <= 0:
+        return l
+    out = Lin.const(l.c)
+    for a, k in l.t.items():
+        term = Lin.atom(a)
+        if a[0] in ('min', 'max') and all(isinstance(x, Lin) for x in a[1]):
+            args = [_resolve(env, x, depth - 1) for x in a[1]]
+            term = env.minmax(a[0], args)
+        out = out + term.scale(k)
+    return out
+
+
+def _free_input(l: Lin, ev) -> bool:
+    """Is this a plain linear form over the length of the received event's body and the budget at the loop head
+    (two quantities nothing relates unless a path fact does)?"""
+    return all(a == ('len', ('sub', ev, 'body')) or a == ('v', BUDGET) for a in l.atoms())
+
+
+def _within_budget(v, f, e, ev, dpos, rem0, rem_end, cons, wit, rw):
+    """Per event, `_pos + max(budget, 0)` does not grow: whatever a path adds to the position (a quantity derived from
+    the RECEIVED event) is covered by what it takes off the budget, and never exceeds the budget it started with --
+    hence `_pos <= Content-Length` by induction.  Proved from the path facts (a `min`, an `if n > rem: n = rem`
+    clamp, a truncated chunk); violated when the facts prove the excess, or when the excess is a form over the event
+    length and the budget that no fact on the path bounds."""
+    if Env.same(dpos, 0):
+        return              # the path does not move the position (read()/readall(): moved once, by len(data), after the loop)
+    what = 'the position never advances by more than the budget admits (tell() <= Content-Length)'
+    cases = []
+    a = e.fork()
+    if a.add_le(0, rem_end):
+        cases.append((a, dpos + rem_end - rem0))
+    b = e.fork()
+    if b.add_le(rem_end, -1):
+        cases.append((b, dpos - rem0))          # (a negative budget ends the loop; judged by the 'budget' obligation)
+    for c, excess in cases:
+        if c.prove_le(excess, 0):
+            v.note(f, 'position', what, True)
+        elif excess.tainted():
+            v.unknown('%s: %s' % (f.qual, '; '.join(e.notes[:2]) or 'position advance %r not understood' % (dpos,)))
+        elif c.prove_le(1, excess) or (_free_input(excess, ev) and c.fork().add_le(1, excess)):
+            v.note(f, 'position', what, False, cons,
+                   'the position advances by %r for an event with a budget of %r left (budget afterwards %r): nothing on the path bounds '
+                   'the advance by the budget' % (dpos, rem0, rem_end), wit, rw)
+        else:
+            v.unknown('%s: cannot bound the position advance %r by the budget %r' % (f.qual, dpos, rem0))
 
 
 def _normalised_after(cfg, head) -> bool:
@@ -244,7 +379,7 @@ def asgi_positions(run, v: Verdicts, f):
     if not produces:
         return
     for start, steps, end in segments(cfg):
-        env = Env(_on_call)
+        env = _Env(_on_call)
         pos0 = env.declare(POS, 'nat')
         env.declare(BUDGET, 'nat')
         for e in run_steps(env, cfg, steps, _tracker(None)):
@@ -415,7 +550,7 @@ def asgi_drained(run, v: Verdicts, f):
     blen0 = Lin.atom(('len', _BUF_ATOM))
 
     def execute(start, steps, nat, inv):
-        env = Env(_on_call_inl)
+        env = _Env(_on_call_inl)
         env.kind[_BUF_ATOM] = 'seq'
         env.declare(POS, 'nat')
         if start == cfg.entry or nat:
